@@ -126,6 +126,8 @@ func init() {
 		"internal/abi.NoEscape":            func(fr *frame, a []value) value { return a[0] },
 		"internal/abi.Escape":              func(fr *frame, a []value) value { return a[0] },
 
+		"maps.clone":            extMapsClone,
+		"strings.Clone":         func(fr *frame, a []value) value { return a[0] },
 		"unique.Make":           extUniqueMake,
 		"(unique.Handle).Value": extUniqueValue,
 
@@ -767,4 +769,27 @@ func extAppendInt(fr *frame, a []value) value {
 		d = strBytes(strconv.FormatInt(a[1].(int64), int(asInt64(a[2]))))
 	}
 	return append(a[0].([]value), d...)
+}
+
+func extMapsClone(fr *frame, a []value) value {
+	it := a[0].(iface)
+	m, _ := it.v.(*omap)
+	if m == nil {
+		return it
+	}
+	c := &omap{idx: map[string]*oentry{}}
+	for _, e := range m.entries {
+		if e.deleted {
+			continue
+		}
+		ne := &oentry{key: e.key, val: e.val, enc: e.enc, conc: e.conc}
+		c.entries = append(c.entries, ne)
+		if ne.conc {
+			c.idx[ne.enc] = ne
+		} else {
+			c.nsym++
+		}
+		c.live++
+	}
+	return iface{t: it.t, v: c}
 }
